@@ -262,7 +262,8 @@ def explore(chk, rnd, tier):
     if not chk.violations:
         reqs, exp = [], []
         for qual in ("ASYNC", "SPIN", "SPINASYNC"):
-            for fn, arg in (("VF_IMM", "a"), ("SUM", "a"), ("TO_LOWER", "'X'"), ("GETVAR", "'k'"), ("RAISE", "'x'")):
+            for fn, arg in (("VF_IMM", "a"), ("SUM", "a"), ("TO_LOWER", "'X'"), ("GETVAR", "'k'"), ("RAISE", "'x'"),
+                            ("VF_Imm_Mixed", "a"), ("vf_imm_mixed", "a"), ("vf_imm", "a"), ("Sum", "a")):
                 reqs.append({"op": "query", "doc": enc_val({"t": [{"a": 1}, {"a": 2}]}), "sql": "SELECT %s.%s(%s) AS v FROM t" % (qual, fn, arg)})
         outs = run_go(reqs)
         for r, o in zip(reqs, outs):
